@@ -13,7 +13,10 @@ META = {
             "identity, W instructions and loads extend correctly, jal/jalr link and target). The property itself is decided by "
             "running the REAL emulator (CPU.StepRun: fetch, decode, execInst on a real device.Bus with DRAM devices) for one step on "
             "every supported instruction x boundary-value state grid and comparing registers as subsequently read, pc and memory "
-            "writes with the specification's step; a second, independently written python reference must agree with the Lean "
+            "writes with the specification's step; a second stream builds the machine exactly as `wa wemu` does (abi.LinkedProgram -> "
+            "wemu.NewWEmu -> Run) for RISCV32/RISCV64/LOONG64 and compares whole program runs (exit status, registers, pc, UART bytes, "
+            "DRAM windows) with the specification iterated, which ties CPU selection/XLEN, DRAM base and size, reset pc/sp and the "
+            "power-off convention of vm.go; a second, independently written python reference must agree with the Lean "
             "specification on every line. No theorem about the Go code is possible (no regenerable data form), hence exploration.",
     "note": "Trusted: Lean kernel; the specification's reading of the manuals (cross-checked by the theorems and by the independent "
             "python reference lib/c20isa.py on every line); the canonicalisation in harness/c20 (x0/f0 reported as the next "
@@ -71,7 +74,7 @@ class Gen:
     def regs3(self):
         return self.rng.sample(range(1, 32), 3)
 
-    def add(self, arch, mn, word, pc, regs, cls, ref, mems=(), fregs=None, x0=None):
+    def add(self, arch, mn, word, pc, regs, cls, ref, mems=(), fregs=None, x0=None, ref_notrap=None):
         parts = ["%s %08x pc=%x" % (arch, word, pc)]
         if x0 is not None:
             parts.append("x0=%x" % x0)
@@ -83,7 +86,7 @@ class Gen:
                 parts.append("f%d=%016x" % (r, fregs[r]))
         for a, data in mems:
             parts.append("m=%x:%s" % (a, bytes(data).hex()))
-        self.cases.append({"line": " ".join(parts), "arch": arch, "mn": mn, "cls": cls, "ref": ref})
+        self.cases.append({"line": " ".join(parts), "arch": arch, "mn": mn, "cls": cls, "ref": ref, "ref_notrap": ref_notrap})
 
 
 # ------------------------------------------------------------------------------------ operand classes
@@ -130,7 +133,11 @@ def gen_rv(g, n):
 
     def emit(mn, rd, rs1, rs2, imm, regs, cls, pc=RV_PC, mems=(), x0=None):
         word = isa.rv_encode(mn, rd, rs1, rs2, imm, n)
-        g.add(arch, mn, word, pc, regs, cls, ref(mn, rd, rs1, rs2, imm, pc, regs, mems), mems, x0=x0)
+        r = ref(mn, rd, rs1, rs2, imm, pc, regs, mems)
+        nt = None
+        if r == "misaligned":
+            nt = isa.canon(isa.rv_ref(n, mn, rd, rs1, rs2, imm, pc, regs, isa.Mem([(pc, [0] * 4)]), trap=False), regs, X)
+        g.add(arch, mn, word, pc, regs, cls, r, mems, x0=x0, ref_notrap=nt)
 
     for mn in mns:
         f = isa.RV[mn][0]
@@ -384,6 +391,204 @@ def gen_la(g):
         g.add("la64", mn, word, LA_PC, {}, "f:f0-bystander", None, fregs={0: vals[1], 4: vals[2], 5: vals[3]})
 
 
+# ------------------------------------------------------------------------------------ whole-machine stream
+# The emulator exactly as `wa wemu` builds it: abi.LinkedProgram -> wemu.NewWEmu -> Run().  What vm.go
+# decides and this stream observes: which CPU (XLEN, ISA) serves which abi CPU type, DRAM base and
+# size, reset pc and stack pointer, the run loop, the power-off (exit ok / exit fail) convention and
+# the UART transmit register.  Programs use only instructions the single-step stream found correct on
+# the pinned tree (each is still compared in full: registers, pc, UART bytes, memory windows).
+def vm_halt(arch, status=0x5555):
+    hi, lo = status >> 12, status & 0xfff
+    if arch == "la64":
+        return [("lu12i.w", 12, 0, 0, 0x100), ("lu12i.w", 13, 0, 0, hi), ("ori", 13, 13, 0, lo), ("st.w", 13, 12, 0, 0)]
+    return [("lui", 5, 0, 0, 0x100), ("lui", 6, 0, 0, hi), ("addi", 6, 6, 0, lo), ("sw", 0, 5, 6, 0)]
+
+
+def vm_print(arch, text):
+    out = []
+    if arch == "la64":
+        out.append(("lu12i.w", 14, 0, 0, 0x10000))
+        for ch in text.encode():
+            out += [("ori", 15, 0, 0, ch), ("st.b", 15, 14, 0, 0)]
+    else:
+        out.append(("lui", 7, 0, 0, 0x10000))
+        for ch in text.encode():
+            out += [("addi", 28, 0, 0, ch), ("sb", 0, 7, 28, 0)]
+    return out
+
+
+def gen_vm(g):
+    rng, tier = g.rng, g.ctx.tier
+    progs = []          # (arch, name, prog, text_addr, data, wins)
+    for arch in ("rv32", "rv64"):
+        n = 32 if arch == "rv32" else 64
+        B = isa.DRAM_BASE[arch]
+        top = B + isa.DRAM_SIZE
+        # results depend on XLEN: lui sign extension, logical shift of the top bits, wrap-around of add/mul
+        xlen = [("lui", 10, 0, 0, 0x80000), ("srli", 11, 10, 0, 4), ("addi", 28, 0, 0, -1), ("srli", 29, 28, 0, 1),
+                ("slli", 30, 28, 0, 31), ("add", 31, 30, 30, 0), ("mul", 19, 10, 10, 0), ("sltu", 18, 29, 10, 0),
+                ("sub", 20, 0, 29, 0), ("srli", 21, 20, 0, 28), ("xori", 22, 11, 0, -1), ("sltiu", 23, 10, 0, -1),
+                ("sw", 0, 2, 11, -4), ("sw", 0, 2, 31, -8), ("sw", 0, 2, 21, -12)]
+        progs.append((arch, "xlen", xlen + vm_print(arch, "x%d" % n) + vm_halt(arch), B, None, [(top - 16, 16)]))
+        # loop: sum 10..1 with a forward branch and a backward jal, result to the data segment and the UART
+        D = top - 0x2000      # reached sp-relative: lui sign-extends on RV64 and AUIPC is one of the recorded defects
+        loop = [("addi", 10, 0, 0, 0), ("addi", 11, 0, 0, 10),
+                ("beq", 0, 11, 0, 16), ("add", 10, 10, 11, 0), ("addi", 11, 11, 0, -1), ("jal", 0, 0, 0, -12),
+                ("lui", 12, 0, 0, 0xffffe), ("add", 12, 2, 12, 0), ("sw", 0, 12, 10, 8), ("addi", 13, 10, 0, 10), ("sb", 0, 12, 13, 12)]
+        progs.append((arch, "loop", loop + vm_print(arch, "OK\n") + vm_halt(arch), B, (D, list(range(1, 9))), [(D, 16)]))
+        # data segment: every load width with sign bits, stores of every width
+        dat = [0x80, 0x7f, 0xff, 0x01, 0xfe, 0xdc, 0xba, 0x98, 0x76, 0x54, 0x32, 0x10, 0xef, 0xcd, 0xab, 0x89]
+        memp = [("lui", 12, 0, 0, 0xffffe), ("add", 12, 2, 12, 0), ("lb", 13, 12, 0, 0), ("lbu", 14, 12, 0, 0), ("lh", 15, 12, 0, 2),
+                ("lhu", 16, 12, 0, 2), ("lw", 17, 12, 0, 4), ("lw", 18, 12, 0, 8), ("lb", 19, 12, 0, 1),
+                ("sb", 0, 12, 17, 16), ("sh", 0, 12, 17, 18), ("sw", 0, 12, 18, 20), ("sw", 0, 12, 13, 24)]
+        if n == 64:
+            memp += [("lwu", 20, 12, 0, 4), ("ld", 21, 12, 0, 8), ("addiw", 22, 17, 0, 1), ("addw", 23, 17, 17, 0),
+                     ("slliw", 24, 14, 0, 24), ("srliw", 25, 17, 0, 4), ("mulw", 26, 17, 17, 0), ("subw", 27, 0, 14, 0)]
+        progs.append((arch, "mem", memp + vm_halt(arch), B, (D, dat), [(D, 32)]))
+        # exit-fail status, text not at the start of DRAM, link register depends on the reset pc
+        T = B + 0x1000
+        progs.append((arch, "exitfail", [("jal", 1, 0, 0, 8), ("addi", 9, 0, 0, 1), ("addi", 8, 1, 0, 0)] + vm_halt(arch, 0x3333), T, None, []))
+        # first and last word of the 16 MiB DRAM, stack pointer = end of DRAM
+        edge = [("lui", 12, 0, 0, 0xff008), ("add", 12, 2, 12, 0), ("addi", 13, 0, 0, 0x5a5), ("sw", 0, 12, 13, 0), ("sw", 0, 2, 13, -4),
+                ("lw", 14, 2, 0, -4), ("lw", 15, 12, 0, 0), ("addi", 16, 2, 0, -16), ("sw", 0, 16, 2, 0), ("lw", 17, 16, 0, 0)]
+        progs.append((arch, "dram-edges", edge + vm_halt(arch), B, None, [(B + 0x8000, 4), (top - 16, 16)]))
+        # signed operations, arithmetic shifts, pc-relative addressing, a backward conditional branch
+        sg = [("addi", 10, 0, 0, -8), ("srai", 11, 10, 0, 1), ("addi", 12, 0, 0, 2), ("div", 13, 10, 12, 0), ("rem", 14, 10, 12, 0),
+              ("slt", 15, 10, 12, 0), ("slti", 16, 10, 0, -7), ("blt", 0, 10, 12, 8), ("addi", 17, 0, 0, 1), ("sra", 18, 10, 12, 0),
+              ("sll", 19, 12, 12, 0), ("srl", 20, 10, 12, 0), ("auipc", 21, 0, 0, 0), ("bge", 0, 12, 12, 8), ("addi", 22, 0, 0, 1),
+              ("addi", 23, 0, 0, 3), ("addi", 24, 24, 0, 5), ("addi", 23, 23, 0, -1), ("bne", 0, 23, 0, -8),
+              ("jalr", 25, 21, 0, 0x54 - 0x30), ("addi", 26, 0, 0, 1), ("auipc", 28, 0, 0, 0x82345), ("sw", 0, 2, 13, -4), ("sw", 0, 2, 20, -8)]
+        if n == 64:
+            sg += [("sd", 0, 2, 10, -16), ("sraiw", 27, 10, 0, 1), ("divw", 9, 10, 12, 0), ("sraw", 8, 10, 12, 0)]
+        progs.append((arch, "signed", sg + vm_halt(arch), B, None, [(top - 16, 16)]))
+        # generated straight-line programs
+        ri = ["addi", "xori", "ori", "andi", "sltiu"] + (["slti", "addiw"] if n == 64 else [])
+        rr = ["add", "sub", "xor", "or", "and", "sltu", "mul"] + (["slt", "addw", "subw", "mulw"] if n == 64 else [])
+        rs = ["slli", "srli"]
+        for k in range(12 if tier == "quick" else 200):
+            pr = [("lui", r, 0, 0, rng.choice(IMM20)) for r in (10, 11)] + [("addi", 12, 0, 0, rng.choice(IMM12)), ("addi", 13, 11, 0, rng.choice(IMM12))]
+            for _ in range(rng.randrange(8, 24)):
+                kind = rng.randrange(4)
+                rd, r1, r2 = rng.randrange(10, 18), rng.randrange(10, 18), rng.randrange(10, 18)
+                if kind == 0:
+                    pr.append((rng.choice(ri), rd, r1, 0, rng.choice(IMM12)))
+                elif kind == 1:
+                    pr.append((rng.choice(rr), rd, r1, r2, 0))
+                elif kind == 2:
+                    mnn = rng.choice(rs + (["slliw", "srliw"] if n == 64 else []))
+                    pr.append((mnn, rd, r1, 0, rng.randrange(32 if mnn.endswith("w") else n)))
+                else:
+                    pr.append(("lui", rd, 0, 0, rng.choice(IMM20)))
+            pr += [("sw", 0, 2, rng.randrange(10, 18), -4 * (j + 1)) for j in range(4)]
+            progs.append((arch, "gen%d" % k, pr + vm_halt(arch), B, None, [(top - 16, 16)]))
+    # LoongArch
+    arch = "la64"
+    B = isa.DRAM_BASE[arch]
+    top = B + isa.DRAM_SIZE
+    la_x = [("lu12i.w", 4, 0, 0, 0x80000), ("add.w", 5, 4, 4, 0), ("add.d", 6, 4, 4, 0), ("sub.d", 7, 0, 4, 0), ("sub.w", 8, 0, 4, 0),
+            ("slli.w", 9, 4, 0, 1), ("srai.w", 10, 4, 0, 4), ("srli.w", 11, 4, 0, 4), ("slt", 16, 4, 0, 0), ("ori", 17, 4, 0, 0xfff),
+            ("and", 18, 17, 7, 0), ("or", 19, 6, 10, 0), ("st.d", 6, 3, 0, -8), ("st.w", 11, 3, 0, -12), ("st.b", 17, 3, 0, -16),
+            ("ld.d", 20, 3, 0, -8), ("ld.bu", 21, 3, 0, -5)]
+    progs.append((arch, "xlen", la_x + vm_print(arch, "la64") + vm_halt(arch), B, None, [(top - 16, 16)]))
+    la_loop = [("ori", 4, 0, 0, 0), ("ori", 5, 0, 0, 10),
+               ("beq", 0, 5, 0, 16), ("add.d", 4, 4, 5, 0), ("addi.w", 5, 5, 0, -1), ("b", 0, 0, 0, -12),
+               ("st.d", 4, 3, 0, -8), ("bl", 0, 0, 0, 8), ("ori", 6, 0, 0, 1), ("or", 7, 1, 0, 0)]
+    progs.append((arch, "loop", la_loop + vm_print(arch, "OK\n") + vm_halt(arch), B, None, [(top - 8, 8)]))
+    progs.append((arch, "exitfail", [("ori", 4, 0, 0, 7)] + vm_halt(arch, 0x3333), B + 0x1000, None, []))
+    la_br = [("ori", 4, 0, 0, 7), ("ori", 5, 0, 0, 7), ("sub.d", 6, 0, 4, 0), ("beq", 5, 4, 0, 8), ("ori", 7, 0, 0, 1),
+             ("blt", 4, 6, 0, 8), ("ori", 8, 0, 0, 1), ("bne", 5, 4, 0, 8), ("ori", 9, 0, 0, 1), ("pcaddu12i", 10, 0, 0, 1),
+             ("addi.w", 11, 6, 0, -1), ("lu12i.w", 16, 0, 0, 0x7ffff), ("ori", 16, 16, 0, 0xfff), ("addi.w", 17, 16, 0, 1),
+             ("srli.w", 18, 6, 0, 0), ("st.d", 17, 3, 0, -8)]
+    progs.append((arch, "branches", la_br + vm_halt(arch), B, None, [(top - 8, 8)]))
+    la_edge = [("ori", 13, 0, 0, 0x5a5), ("st.w", 13, 3, 0, -4), ("ld.d", 14, 3, 0, -8), ("lu12i.w", 15, 0, 0, 0xff8),
+               ("sub.d", 16, 3, 15, 0), ("st.d", 3, 16, 0, 0), ("ld.d", 17, 16, 0, 0), ("ld.bu", 18, 16, 0, 3)]
+    progs.append((arch, "dram-edges", la_edge + vm_halt(arch), B, None, [(B + 0x8000, 8), (top - 8, 8)]))
+    r3 = ["add.w", "add.d", "sub.w", "sub.d", "and", "or", "slt"]
+    for k in range(12 if tier == "quick" else 200):
+        pr = [("lu12i.w", r, 0, 0, rng.choice(IMM20)) for r in (4, 5)] + [("ori", 6, 0, 0, rng.randrange(4096)), ("ori", 7, 5, 0, rng.randrange(4096))]
+        for _ in range(rng.randrange(8, 24)):
+            kind = rng.randrange(4)
+            rd, rj, rk = rng.randrange(4, 12), rng.randrange(4, 12), rng.randrange(4, 12)
+            if kind == 0:
+                pr.append(("ori", rd, rj, 0, rng.randrange(4096)))
+            elif kind == 1:
+                pr.append((rng.choice(r3), rd, rj, rk, 0))
+            elif kind == 2:
+                pr.append((rng.choice(["slli.w", "srai.w", "srli.w"]), rd, rj, 0, rng.randrange(1, 32)))
+            else:
+                pr.append(("lu12i.w", rd, 0, 0, rng.choice(IMM20)))
+        pr += [("st.d", rng.randrange(4, 12), 3, 0, -8 * (j + 1)) for j in range(2)]
+        progs.append((arch, "gen%d" % k, pr + vm_halt(arch), B, None, [(top - 16, 16)]))
+    out = []
+    for arch, name, prog, taddr, data, wins in progs:
+        out.append({"line": isa.vm_line(arch, prog, taddr, data, wins), "arch": arch, "name": name,
+                    "ref": isa.vm_ref(arch, prog, taddr, data, wins), "instructions": len(prog)})
+    return out
+
+
+VM_FIELDS = ("pc", "x", "uart", "mem")
+
+
+def vm_aspect(a, b):
+    """which architecturally visible part of the final machine state differs"""
+    fa, fb = a.split(), b.split()
+    if fa[:2] != fb[:2] or len(fa) != 6 or len(fb) != 6:
+        return "outcome"
+    for i, name in enumerate(VM_FIELDS):
+        if fa[2 + i] != fb[2 + i]:
+            return {"x": "registers", "mem": "memory"}.get(name, name)
+    return "outcome"
+
+
+def run_vm(ctx, h, m, cov):
+    cases = gen_vm(Gen(ctx)) if not ctx.replay else []
+    if ctx.replay:
+        import json
+        rp = json.load(open(ctx.replay)).get("replay", {})
+        if rp.get("line", "").startswith("vm "):
+            cases = [{"line": rp["line"], "arch": rp["line"].split()[1], "name": rp.get("program", "replay"), "ref": None}]
+    text = "\n".join(c["line"] for c in cases) + "\n"
+    if not cases:
+        return
+    _, out, _ = ctx.run_bin(h, input_text=text, timeout=900)
+    _, mo, _ = ctx.run_bin(m, input_text=text)
+    impl, spec = out.splitlines(), mo.splitlines()
+    if len(impl) != len(cases) or len(spec) != len(cases):
+        ctx.proof["broken"].append({"theorem": "C20 vm streams", "why": "cases=%d impl=%d spec=%d" % (len(cases), len(impl), len(spec))})
+        return
+    impl_r, spec_r, nd = [], [], 0
+    for c, a, b in zip(cases, impl, spec):
+        ir, sr = a.partition(" | ")[0], b.partition(" | ")[0]
+        steps = b.partition("steps=")[2]
+        impl_r.append(ir)
+        spec_r.append(sr)
+        if c["ref"] is not None and sr != c["ref"]:
+            ctx.proof["broken"].append({"theorem": "C20 specification vs independent python reference (vm stream)",
+                                        "why": "%s %s: Lean %r python %r" % (c["arch"], c["name"], sr, c["ref"])})
+            impl_r[-1] = spec_r[-1] = "skipped"
+            continue
+        c["steps"] = steps
+        if ir != sr:
+            nd += 1
+            asp = vm_aspect(ir, sr)
+            ctx.violation("vm:%s:%s" % (c["arch"], asp),
+                          "wemu.NewWEmu(%s program %r).Run(): final %s differ from the ISA reference run (%s steps): emulator [%s], reference [%s]"
+                          % (c["arch"], c["name"], asp, steps, ir, sr),
+                          {"line": c["line"], "program": c["name"], "emulator": ir, "reference": sr,
+                           "replay": "echo '<line>' | .build/bin/c20   (and lean/.lake/build/bin/wamodel_c20)"})
+    ctx.diff_lines([c["line"] for c in cases], impl_r, spec_r)
+    cov["vm_stream"] = {
+        "programs": len(cases), "differing": nd,
+        "instructions_executed_by_reference": sum(int(c.get("steps") or 0) for c in cases),
+        "per_arch": {a: sum(1 for c in cases if c["arch"] == a) for a in ("rv32", "rv64", "la64")},
+        "what": "abi.LinkedProgram{CPU: RISCV32|RISCV64|LOONG64} -> wemu.NewWEmu(prog, nil) -> Run(), as internal/app/appwemu does; "
+                "compared: exit status (power device 0x5555/0x3333), final pc, every integer register, UART bytes, DRAM windows "
+                "(incl. first word, last word below the reset stack pointer); programs: XLEN-dependent arithmetic, loop with backward "
+                "jump, all load/store widths from a data segment, exit-fail, text away from the DRAM base, generated straight-line code",
+        "samples": [{"arch": c["arch"], "program": c["name"], "emulator": impl_r[i]} for i, c in enumerate(cases) if c["name"] in ("xlen", "loop")],
+    }
+
+
 # ------------------------------------------------------------------------------------ run
 def canon_nan(r):
     """floating point is executed only: every NaN bit pattern counts as the same value (the host's
@@ -420,7 +625,8 @@ def run(ctx):
     if ctx.replay:
         # ./check C20 --replay replays/C20/<file>.json : only the recorded case
         rp = json.load(open(ctx.replay)).get("replay", {})
-        g.cases = [{"line": rp["line"], "arch": rp["line"].split()[0], "mn": rp["mnemonic"], "cls": rp["class"], "ref": None}]
+        if not rp["line"].startswith("vm "):
+            g.cases = [{"line": rp["line"], "arch": rp["line"].split()[0], "mn": rp["mnemonic"], "cls": rp["class"], "ref": None}]
     else:
         gen_rv(g, 64)
         gen_rv(g, 32)
@@ -474,6 +680,10 @@ def run(ctx):
         if m2 and m2 != c["mn"]:
             decoded_as.setdefault("%s:%s" % (c["arch"], c["mn"]), set()).add(m2)
         if ir != sr:
+            if sr == "misaligned" and c.get("ref_notrap") is not None and ir != c["ref_notrap"]:
+                # the recorded finding is "no instruction-address-misaligned exception": the emulator then has to
+                # behave exactly like the reference without that exception; anything else is a different defect
+                key += ":state-differs-beyond-missing-exception"
             dist[key] = dist.get(key, 0) + 1
             ctx.violation(key, describe(c, ir, sr, iinfo if m2 != c["mn"] else ""),
                           {"line": c["line"], "mnemonic": c["mn"], "class": c["cls"], "emulator": ir, "reference": sr,
@@ -502,6 +712,21 @@ def run(ctx):
         "decoded_differently_by_emulator": {k: sorted(v) for k, v in sorted(decoded_as.items())},
         "reference_disagreements": refdiff,
     }
+    attribution, unattributed = {}, 0
+    for k2, cnt in dist.items():
+        hit = [kf["key"] for kf in ctx.known if kf["key"] == k2 or (kf.get("key_regex") and re.fullmatch(kf["key_regex"], k2))]
+        if hit:
+            attribution[hit[0]] = attribution.get(hit[0], 0) + cnt
+        else:
+            unattributed += cnt
+    cov["differences_attribution"] = {
+        "differing_cases": sum(dist.values()), "per_recorded_finding": attribution, "unattributed": unattributed,
+        "note": "every emulator/reference difference is passed to ctx.violation under its (arch, mnemonic, operand class) key; a key not "
+                "matched by a recorded finding fails the check, so with violations=0 all differing cases are attributed. For the "
+                "missing instruction-address-misaligned exception each attributed case is additionally required to equal the "
+                "reference outcome WITHOUT that exception (pc = misaligned target, link register written), else it gets its own key."}
+    run_vm(ctx, h, m, cov)
+    cov["evaluations"] += cov.get("vm_stream", {}).get("programs", 0)
     return ctx.finish("exploration", cov,
                       assumptions=["misaligned data accesses are performed (permitted by both manuals; the emulator performs them)",
                                    "RISC-V: a taken branch/jump to a target that is not 4-byte aligned raises instruction-address-misaligned (no C extension)",
